@@ -27,7 +27,7 @@ def showRes (clang : Bool) (r : PRes) : String :=
   | .cannotCache w => s!"cc {hx w}"
   | .ok p =>
     let outs := (p.outputs.map fun (k, path, opt) => s!"{str k}:{hx path}:{if opt then 1 else 0}").toArray.qsort (· < ·) |>.toList
-    s!"ok input={hx p.input} dd={p.doubleDash} lang={langStr p.lang} cflag={hx p.cflag} outputs=[{",".intercalate outs}] dep={hl p.dep} pre={hl p.pre} common={hl p.common} arch={hl p.arch} unh={hl p.unhashed} pg={p.profileGenerate} th={match p.tooHardPP with | some t => hx t | none => "none"} regen={hl (regen p)} dist0={match distRegen (!clang) false p with | some d => hl d | none => "none"} dist1={match distRegen (!clang) true p with | some d => hl d | none => "none"}"
+    s!"ok input={hx p.input} dd={p.doubleDash} lang={langStr p.lang} cflag={hx p.cflag} outputs=[{",".intercalate outs}] dep={hl p.dep} pre={hl p.pre} common={hl p.common} arch={hl p.arch} unh={hl p.unhashed} pg={p.profileGenerate} th={match p.tooHardPP with | some t => hx t | none => "none"} regen={hl (regen p)} dist0={match distRegen (!clang) false p with | some d => hl d | none => "none"} dist1={match distRegen (!clang) true p with | some d => hl d | none => "none"} xh={hl p.extraHash}"
 
 partial def loop (h : IO.FS.Stream) (n bad : Nat) : IO Nat := do
   let line ← h.getLine
